@@ -77,6 +77,7 @@ class Evaluator:
     ):
         self.env = dict(env)
         self.inplace_ops = False  # opt-in: `x -= y` calls x.__isub__ when x defines it
+        self.strict_calls = False  # opt-in: a call nothing models is an analysis error instead of an opaque value
         self.on_call = on_call
         self.on_attr = on_attr
         self.on_subscript = on_subscript
@@ -445,6 +446,15 @@ class Evaluator:
             if isinstance(a, Opaque):
                 return Opaque("isinf")
             return math.isinf(a)
+        if self.strict_calls:
+            root = f
+            while isinstance(root, (ast.Attribute, ast.Call, ast.Subscript)):
+                root = root.func if isinstance(root, ast.Call) else root.value
+            if isinstance(root, ast.Name) and root.id.lower() in ("logger", "logging", "log", "warnings"):
+                for a_ in e.args:
+                    self.eval(a_)
+                return None  # logging has no effect on the model
+            raise Unknown(f"call `{ast.unparse(e)[:70]}` is not modelled")
         return Opaque(ast.unparse(e)[:40])
 
     def _call_local(self, lf: "LocalFunc", e: ast.Call):
@@ -469,8 +479,12 @@ class Evaluator:
             if k.arg is None or k.arg not in names or k.arg in bound:
                 raise Unknown("keyword argument of a local function")
             bound[k.arg] = self.eval(k.value)
+        early = getattr(lf, "early_defaults", None)
         for n in names:
             if n not in bound:
+                if early is not None and n in early:
+                    bound[n] = early[n]
+                    continue
                 if n not in defaults:
                     raise EvalRaise("TypeError", e)
                 bound[n] = Evaluator(lf.env, self.on_call, self.on_attr, self.on_subscript, self.on_store).eval(defaults[n])
@@ -478,6 +492,7 @@ class Evaluator:
         sub = Evaluator(env, self.on_call, self.on_attr, self.on_subscript, self.on_store)
         sub.loops, sub.with_binds_value, sub.globals_env, sub.on_name, sub.on_def = self.loops, self.with_binds_value, self.globals_env, self.on_name, self.on_def
         sub.inplace_ops = self.inplace_ops
+        sub.strict_calls = self.strict_calls
         sub.trace = self.trace
         if hasattr(self, "fn"):
             sub.fn = self.fn  # type: ignore[attr-defined]
@@ -511,7 +526,18 @@ class Evaluator:
                     self.env.pop(k, None)
 
     def _e_Lambda(self, e):
-        return LocalFunc(e, self.env)
+        lf = LocalFunc(e, self.env)
+        # default values are evaluated when the lambda is created (lambda gene=g: ... binds the gene of this round)
+        a = e.args
+        names = [x.arg for x in a.posonlyargs + a.args]
+        early = {}
+        for n, d in zip(names[len(names) - len(a.defaults):], a.defaults):
+            early[n] = self.eval(d)
+        for x, d in zip(a.kwonlyargs, a.kw_defaults):
+            if d is not None:
+                early[x.arg] = self.eval(d)
+        lf.early_defaults = early
+        return lf
 
     # ------------------------------------------------------------- statements
     def run(self, stmts: List[ast.stmt]) -> None:
